@@ -41,3 +41,11 @@ claim('C18', 'property-based testing: metamorphic relation strip_comments on/off
       'Exploration: ~105 000 (quick) inputs are preprocessed with and without strip_comments; the non-comment token sequences, returned define tables and errors must be identical and the stripped output must hold no comment outside kept `define lines.',
       'A comment surviving because it is owned by a string / escaped identifier is classified as listed finding K1 (structural check on the position of every surviving comment).',
       'DESIGN.md 6 C18')
+claim('C16', 'property-based testing: corpus / generated / mutated trees; traversal invariants checked on every node against an index built from the event nesting',
+      'Exploration: ~6 000 (quick) trees (whole corpus + generated programs + library maps + mutants), ~10^6 nodes: root first, balanced events, Enter sequence == iteration, sub-iteration == slice, unwrap_node!/unwrap_locate! == linear search, get_str_trim == span of non-whitespace leaves.',
+      'Nodes are identified by (kind, leaf position) signatures and subtree sizes.',
+      'DESIGN.md 6 C16')
+claim('C20', 'property-based testing: differential comparison of all public entry points over generated file trees and all flag combinations',
+      'Exploration: ~6 700 (quick) generated file trees (preprocessor programs, multi-file SystemVerilog programs, library maps) x 4 preprocess flag combinations x 4 parse flag combinations; file, string and two-step entry points must agree on text, every origin, define table, tree (Debug), every leaf origin and error.',
+      'Results are compared through Debug renderings.',
+      'DESIGN.md 6 C20')
